@@ -884,7 +884,7 @@ func (c *pathBuilderVisitor) planWithExistingPlanners(field *currentFieldInfo) (
 			}
 		}
 
-		if plannerConfig.HasPath(field.parentPath) || plannerConfig.HasPath(field.precedingParentPath) {
+		if plannerConfig.HasPath(field.parentPath) || (plannerConfig.HasPath(field.precedingParentPath) && c.plannerCanWalkFragmentChain(plannerConfig)) {
 			if pathAdded := c.addPlannerPathForTypename(field, plannerIdx, planningBehaviour); pathAdded {
 				return plannerIdx, true
 			}
@@ -911,6 +911,48 @@ func (c *pathBuilderVisitor) planWithExistingPlanners(field *currentFieldInfo) (
 	}
 
 	return -1, false
+}
+
+// plannerCanWalkFragmentChain reports whether the planner, which has the path preceding the chain of
+// nested inline fragments the current field sits in, is able to walk through every fragment of the chain.
+// A planner visits a field only by walking into each enclosing fragment, and EnterSelectionSet registers
+// a fragment path only for planners whose datasource has the type of the type condition.
+// With nested fragments (`... on Tagged { ... on Product { stamp } }`) the datasource of the field
+// (an entity fetch for Product) does not necessarily have the outer type (Tagged):
+// the field path would be added to a planner that never reaches it and the field would silently
+// not be fetched. In this case the field has to get its own planner below the fragment.
+func (c *pathBuilderVisitor) plannerCanWalkFragmentChain(planner PlannerConfiguration) bool {
+	path := c.walker.Path
+
+	chainLength := 0
+	for i := len(path); i > 0 && path[i-1].Kind == ast.InlineFragmentName; i-- {
+		chainLength++
+	}
+	if chainLength < 2 || len(c.parentTypeNodes) <= chainLength {
+		// a single fragment is always the type of the field's datasource
+		return true
+	}
+
+	ds := planner.DataSourceConfiguration()
+	for k := chainLength; k >= 1; k-- {
+		if planner.HasPath(path[:len(path)-k+1].DotDelimitedString()) {
+			continue
+		}
+
+		typeName := string(path[len(path)-k].FieldName)
+		if ds.HasRootNodeWithTypename(typeName) || ds.HasChildNodeWithTypename(typeName) {
+			continue
+		}
+
+		// mirrors EnterSelectionSet: there are no root/child nodes for a union type
+		if c.parentTypeNodes[len(c.parentTypeNodes)-k-1].Kind == ast.NodeKindUnionTypeDefinition {
+			continue
+		}
+
+		return false
+	}
+
+	return true
 }
 
 func (c *pathBuilderVisitor) isParentPathIsRootOperationPath(parentPath string) bool {
